@@ -113,7 +113,7 @@ fn gen_pending(r: &mut Rng) -> Vec<u64> {
     (0..64u64).filter(|_| r.chance(p, 12)).collect()
 }
 
-fn gen_pipe(r: &mut Rng, total: usize) -> PipePlan {
+pub fn gen_pipe(r: &mut Rng, total: usize) -> PipePlan {
     PipePlan {
         write_sizes: gen_sizes(r, total),
         read_sizes: gen_sizes(r, total),
